@@ -40,3 +40,35 @@ package routing
 //@   loop 1
 //@     invariant cidrs == nil || fresh(cidrs)
 //@     invariant len(cidrs) == $idx && (forall k int {cidrs[k]} :: 0 <= k && k < $idx ==> nth(netip.ParsePrefix(norm(values[k])), 1) == nil && cidrs[k] == nth(netip.ParsePrefix(norm(values[k])), 0))
+
+// ---------------------------------------------------------------------------------------------
+// C04: normalisation never changes meaning.
+
+// Merging two neighbouring rules into one condition list is an OR of their values under one outbound.
+// That preserves the decision only when both rules are a single, NOT-negated condition of the same
+// function (for a negated condition the values would have to be AND-ed), with the same complete outbound
+// (name and every parameter, e.g. mark and must).
+//@ func (*MergeAndSortRulesOptimizer).Optimize
+//@   anchorsonly
+//@   dyncalls noeffect
+//@   modifies *
+//@   at call builtin:append#1 assert len(mergingRule.AndFunctions) == 1 && len(rules[i].AndFunctions) == 1
+//@   at call builtin:append#1 assert mergingRule.AndFunctions[0].Name == rules[i].AndFunctions[0].Name
+//@   at call builtin:append#1 assert !mergingRule.AndFunctions[0].Not && !rules[i].AndFunctions[0].Not
+//@   at call builtin:append#1 assert rules[i].Outbound.String(true, false, true) == mergingRule.Outbound.String(true, false, true)
+
+// Removing duplicate values keeps, in order, the first occurrence of every (key, value) pair and nothing else.
+//@ func deduplicateParams
+//@   nonilcheck
+//@   let same(p *config_parser.Param, q *config_parser.Param) = p.Key == q.Key && p.Val == q.Val
+//@   requires forall a *config_parser.Param, b *config_parser.Param {a.String(true, false), b.String(true, false)} :: (a.String(true, false) == b.String(true, false)) <==> same(a, b)
+//@   ensures forall j int {result[j]} :: 0 <= j && j < len(result) ==> (exists i int :: 0 <= i && i < len(list) && result[j] == list[i])
+//@   ensures forall i int {list[i]} :: 0 <= i && i < len(list) ==> (exists j int :: 0 <= j && j < len(result) && same(result[j], list[i]))
+//@   ensures forall j int, k int :: 0 <= j && j < k && k < len(result) ==> !same(result[j], result[k])
+//@   loop 1
+//@     invariant res == nil || fresh(res)
+//@     invariant m != nil && fresh(m)
+//@     invariant forall j int {res[j]} :: 0 <= j && j < len(res) ==> (exists i int :: 0 <= i && i < $idx && res[j] == list[i]) && has(m, res[j].String(true, false))
+//@     invariant forall i int {list[i]} :: 0 <= i && i < $idx ==> (exists j int :: 0 <= j && j < len(res) && same(res[j], list[i]))
+//@     invariant forall j int, k int :: 0 <= j && j < k && k < len(res) ==> !same(res[j], res[k])
+//@     invariant forall s string {has(m, s)} :: has(m, s) ==> (exists j int :: 0 <= j && j < len(res) && res[j].String(true, false) == s)
